@@ -159,6 +159,18 @@ static void run_actions(Tst *t, int phase) {
                     when_("p", create_equal_to_value_constraint(1, "1")), (Constraint *)0);
             (void)mock_(r, "mocked_w", "scn.c", a->line, "p", (intptr_t)2);
         }
+        else if (!strcmp(k, "twoa") || !strcmp(k, "twob")) {
+            /* one mocked function reached through two call sites whose mock(...) argument lists differ (two files
+               with a file-local function of the same name, or two branches of one function): (a) and (a, b).
+               Each action is one passing check on a parameter of its own list */
+            if (k[3] == 'a') {
+                expect_(r, "mocked_two", "scn.c", a->line, when_("a", create_equal_to_value_constraint(1, "1")), (Constraint *)0);
+                (void)mock_(r, "mocked_two", "scn.c", a->line, "a", (intptr_t)1);
+            } else {
+                expect_(r, "mocked_two", "scn.c", a->line, when_("b", create_equal_to_value_constraint(2, "2")), (Constraint *)0);
+                (void)mock_(r, "mocked_two", "scn.c", a->line, "a, b", (intptr_t)1, (intptr_t)2);
+            }
+        }
         else if (!strcmp(k, "die_in")) die_in(atoi(a->arg[0]));
         else if (!strcmp(k, "spin")) { for (;;) pause(); }
         else { fprintf(stderr, "scn_driver: unknown action %s\n", k); exit(97); }
